@@ -83,6 +83,11 @@ structure World where
   genPins : List Bytes := []
   /-- outcomes of successive PIN-file writes; exhausted ⇒ succeeds -/
   fsOk : List Bool := []
+  /-- the operator: successive `sys.stdin.readline()` and `getpass()` answers -/
+  stdinLines : List String := []
+  getpassLines : List String := []
+  /-- what `os.urandom(32)` returns for the seed -/
+  seed : Bytes := []
   deriving Repr, Inhabited
 
 structure Res (α : Type) where
